@@ -58,3 +58,44 @@ func VerifC12Copy() {
 	rt.Assert(lines[2] == other[1], "another path of the modified copy changed: "+stdout)
 	rt.Assert(lines[3] == other[1], "another path of the untouched copy changed: "+stdout)
 }
+
+type subdoc struct {
+	literal string
+	sub     string      // path of a container inside the document
+	leaves  [][2]string // leaves below sub: path relative to sub -> value
+}
+
+var subdocs = []subdoc{
+	{`%{cfg:{port:80, host:h}, s:6}`, "cfg", [][2]string{{"port", "80"}, {"host", "h"}}},
+	{`%{list:[1,2,3], m:{k:3}}`, "list", [][2]string{{"0", "1"}, {"1", "2"}, {"2", "3"}}},
+	{`%[[1,2],[3,4]]`, "1", [][2]string{{"0", "3"}, {"1", "4"}}},
+	{`%{a:{b:{c:7, d:8}}}`, "a.b", [][2]string{{"c", "7"}, {"d", "8"}}},
+}
+
+// VerifC12SubCopy: `b = $a.<container>` copies a sub-document: modifying the copy leaves the
+// original unchanged and the other way round.
+func VerifC12SubCopy() {
+	d := subdocs[rt.Choice("doc", len(subdocs))]
+	li := rt.Choice("leaf", 3)
+	rt.Assume(li < len(d.leaves))
+	leaf := d.leaves[li]
+	modCopy := rt.Choice("modify_copy", 2) == 1
+	var prog string
+	if modCopy {
+		prog = fmt.Sprintf("a = %s\nb = $a.%s\n$b.%s = 9\nout $b.%s\nout $a.%s.%s\n", d.literal, d.sub, leaf[0], leaf[0], d.sub, leaf[0])
+	} else {
+		prog = fmt.Sprintf("a = %s\nb = $a.%s\n$a.%s.%s = 9\nout $a.%s.%s\nout $b.%s\n", d.literal, d.sub, d.sub, leaf[0], d.sub, leaf[0], leaf[0])
+	}
+	rt.Note(strings.ReplaceAll(prog, "\n", "; "))
+	stdout, stderr, exit, err := mx.Run(prog)
+	rt.Assert(err == nil, "program did not compile")
+	rt.Reach("sub-ran")
+	rt.Assert(exit == 0 && stderr == "", "sub-document copy / nested assignment / read failed: "+stderr)
+	lines := strings.Split(strings.TrimRight(stdout, "\n"), "\n")
+	rt.Assert(len(lines) == 2, "unexpected output: "+stdout)
+	if len(lines) != 2 {
+		return
+	}
+	rt.Assert(lines[0] == "9", "the assigned path does not read back the new value: "+stdout)
+	rt.Assert(lines[1] == leaf[1], "modifying a sub-document copy (or its origin) changed the other one: "+stdout)
+}
